@@ -234,6 +234,40 @@ def build(tier, repo):
     chk.note_analysed("id_sentinel_tests", nid)
     r7.require(3)
 
+    r9 = chk.rule("C15-R9", "the in-place number slots call the shared arithmetic with the in-place flag set, the regular slots with it cleared",
+                  "in-place operators modify the same object seen through every alias; regular ones create new objects")
+    cden = cs["dense.c"]
+    nfl = 0
+    for fn in cden.order:
+        txt = cx.strip_pp(cden.text(cden.funcs[fn]["b"], cden.funcs[fn]["e"]))
+        for m_ in re.finditer(r"\b(matrix_(\w+)_generic)\s*\(\s*self\s*,\s*other\s*,\s*(\w+)\s*\)", txt):
+            op, flag = m_.group(2), m_.group(3)
+            if fn == "matrix_i" + op:
+                want = "1"
+            elif fn == "matrix_" + op:
+                want = "0"
+            else:
+                continue
+            nfl += 1
+            key = "%s:%s(self, other, inplace)" % (fn, m_.group(1))
+            where = "src/C/dense.c:%s" % fn
+            if flag == want:
+                r9.ok(key, where, "inplace = %s" % flag)
+            else:
+                r9.violation(key, where, "%s passes inplace = %s to %s: %s" % (fn, flag, m_.group(1),
+                             "the in-place operator builds a new matrix and rebinds the name - other references and exported views keep the old values"
+                             if want == "1" else "the regular operator modifies its left operand"), "inplace = %s" % want, flag)
+    chk.note_analysed("inplace_flag_calls", nfl)
+    r9.require(8)
+
+    r8 = chk.rule("C15-R8", "Py_BuildValue units have the C width of their arguments (64-bit int_t results are not read as int)",
+                  "'i' results are exact for all 64-bit values")
+    nb = 0
+    for fname in ("dense.c", "base.c", "sparse.c"):
+        nb += cw.buildvalue_rule(r8, cs[fname], cs[fname].order)
+    chk.note_analysed("buildvalue_calls", nb)
+    r8.require(20)
+
     r5 = chk.rule("C15-R5", "Python-level max/min/mul/div return fresh matrices", "regular operations create new objects")
     path = repo + "/src/python/__init__.py"
     try:
